@@ -134,14 +134,17 @@ void deny_reset();                                        // stubs.cc
 // which the statement lists as a must-fail class.  (sha1crypt's iteration field is deliberately not judged:
 // the unchanged tree accepts "+5" and "05" there, see DESIGN 6.)
 static bool numeric_field_malformed(const std::string &s) {
-  auto field_bad = [&](size_t from) {
+  auto field_bad = [&](size_t from, unsigned long long lo, unsigned long long hi) {
     size_t e = s.find('$', from); if (e == std::string::npos) e = s.size();
     if (e == from) return true;
     for (size_t i = from; i < e; i++) if (s[i] < '0' || s[i] > '9') return true;
-    return false;
+    if (e - from > 19) return true;                      // does not fit any documented range
+    unsigned long long v = strtoull(s.substr(from, e - from).c_str(), nullptr, 10);
+    return v < lo || v > hi;
   };
-  if (!s.compare(0, 10, "$5$rounds=") || !s.compare(0, 10, "$6$rounds=")) return field_bad(10);
-  if (!s.compare(0, 12, "$md5,rounds=")) return field_bad(12);
+  // crypt(5): rounds of sha256crypt/sha512crypt range from 1000 to 999,999,999
+  if (!s.compare(0, 10, "$5$rounds=") || !s.compare(0, 10, "$6$rounds=")) return field_bad(10, 1000, 999999999ULL);
+  if (!s.compare(0, 12, "$md5,rounds=")) return field_bad(12, 0, 4294967295ULL);
   if (s.size() >= 4 && s[0] == '$' && s[1] == '2' && strchr("abxy", s[2]) && s[3] == '$')
     return !(s.size() >= 7 && s[4] >= '0' && s[4] <= '9' && s[5] >= '0' && s[5] <= '9' && s[6] == '$');
   return false;
@@ -337,6 +340,7 @@ struct Run {
   int cur_pat_task = -1;
 };
 static Run *g_run;
+extern "C" { extern char sim_static_crypt_ctx[] __attribute__((weak)); }   // crypt()'s private object (objcopy gives it this name)
 
 static const size_t CD = sizeof(struct crypt_data);
 static bool all_zero(const void *p, size_t n) NOASAN;
@@ -387,6 +391,7 @@ static void on_release(int task, const void *p, size_t size, ReqKind how, const 
 
 // ================================================================= op execution
 struct HashCall {
+  bool aliased = false;       // the setting argument was the object's own output field
   std::string kind;
   Bytes phrase, setting;      // actual values at call time
   bool failed = false;
@@ -431,6 +436,7 @@ static bool scratch_same(const struct crypt_data *cd, const ScratchSnap &s) {
 }
 static bool past_validation_for_sure(const HashCall &c) {
   if (!c.failed) return true;
+  if (c.aliased) return false;   // the up-front failure token rewrote the setting the library went on to validate
   if (c.phrase.null || c.setting.null) return false;
   if (c.phrase.b.size() >= CRYPT_MAX_PASSPHRASE_SIZE) return false;
   if (!setting_chars_ok(c.setting.b)) return false;
@@ -460,7 +466,7 @@ static void check_scratch(Run &r, int t, int i, const HashCall &c, const struct 
 
 // ---- fail-closed oracle (C05-2,3,4)
 static bool errno_documented(int e) { return e == EINVAL || e == ERANGE || e == ENOMEM; }
-static void check_fail_closed(Run &r, int t, int i, const HashCall &c, long size, const std::set<std::string> &earlier) {
+static void check_fail_closed(Run &r, int t, int i, const HashCall &c, long size, const std::set<std::string> &earlier, bool aliased = false) {
   const char *k = c.kind.c_str();
   // 2: return value and errno
   if (c.kind == "crypt_rn" || c.kind == "crypt_ra") {
@@ -484,7 +490,7 @@ static void check_fail_closed(Run &r, int t, int i, const HashCall &c, long size
     if (avail >= 3) {
       if (o.empty() || o[0] != '*' || o.size() >= 13)
         violation(nullptr, "failure-token", t, i, vfmt("%s failed but output holds \"%.40s\" (must start with '*' and be shorter than 13)", k, o.c_str()));
-      else if (!c.setting.null && o == c.setting.b)
+      else if (!c.setting.null && o == c.setting.b && !aliased)   // (a setting that IS the output field is overwritten by the token: nothing to differ from)
         violation(nullptr, "failure-token", t, i, vfmt("%s: failure token \"%s\" equals the setting", k, o.c_str()));
       else {
         RefOut rr = RefClient::get().hash(Bytes("x"), Bytes(o));
@@ -572,6 +578,8 @@ static void exec_hash(Run &r, int t, int i, const J &op) {
     }
   } else if (c.kind == "crypt_ra") {
     slot = &tc.slots.at((size_t)op.i("slot"));
+  } else if (sim_static_crypt_ctx) {
+    cd = (struct crypt_data *)sim_static_crypt_ctx;   // crypt(): same erasure and residue oracles as for caller objects
   }
 
   // arguments
@@ -582,20 +590,30 @@ static void exec_hash(Run &r, int t, int i, const J &op) {
   if (op.has("phs") && (size_t)op.i("phs") < r.shared.size()) { c.phrase = Bytes(r.shared[(size_t)op.i("phs")]); php = r.shared[(size_t)op.i("phs")].c_str(); stat("probe_shared_readonly_input"); }
   if (op.has("sts") && (size_t)op.i("sts") < r.shared.size()) { c.setting = Bytes(r.shared[(size_t)op.i("sts")]); stp = r.shared[(size_t)op.i("sts")].c_str(); stat("probe_shared_readonly_input"); }
   std::string stsrc = op.str("stsrc", "lit");
+  bool aliased = false;
+  if (stsrc == "out") {
+    // the setting is the object's own output field (what `crypt (pw, crypt (other, salt))` does with the static object).
+    // Whether the library supports that is its business - today the up-front failure token clobbers it and the call
+    // fails - but it must stay fail-closed, and if it succeeds the result must be the hash for the string that was there.
+    const struct crypt_data *src = cd ? cd : (slot && slot->data && slot->size >= (int)CD) ? (const struct crypt_data *)slot->data : nullptr;
+    const std::string &st_now = c.kind == "crypt" ? r.static_state : obj ? obj->state : slot ? slot->state : std::string("fresh");
+    // only when the library itself wrote that field earlier in this history (never application garbage)
+    if (src && full_object && (st_now == "success" || st_now == "failure") && memchr(src->output, 0, sizeof src->output)) { stp = src->output; c.setting = Bytes(std::string(stp)); aliased = true; c.aliased = true; stat("probe_setting_aliases_output"); }
+  }
   if (stsrc == "gs" && tc.last_gensalt_static) {   // crypt_gensalt's static result passed straight on
     stp = tc.last_gensalt_static; c.setting = Bytes(std::string(stp));
     stat("probe_gensalt_static_passed_to_crypt");
   }
-  if (cd && full_object && op.i("phin") && !c.phrase.null && c.phrase.b.size() < sizeof cd->input) {
+  if (obj && cd && full_object && op.i("phin") && !c.phrase.null && c.phrase.b.size() < sizeof cd->input) {
     memcpy(cd->input, c.phrase.b.c_str(), c.phrase.b.size() + 1); php = cd->input; stat("probe_phrase_in_object"); if (obj) obj->input_tainted = true;
   }
-  if (cd && full_object && op.i("stin") && !c.setting.null && c.setting.b.size() < sizeof cd->setting && stsrc != "gs") {
+  if (obj && cd && full_object && op.i("stin") && !c.setting.null && c.setting.b.size() < sizeof cd->setting && stsrc != "gs") {
     memcpy(cd->setting, c.setting.b.c_str(), c.setting.b.size() + 1); stp = cd->setting; stat("probe_setting_in_object"); if (obj) obj->setting_tainted = true;
   }
 
   // application scribbles over the scratch area (legal: the object is the caller's)
   std::string pre = op.str("pre", "keep");
-  if (cd && full_object && pre != "keep") {
+  if (obj && cd && full_object && pre != "keep") {   // only the caller's own objects: crypt()'s static one is not the application's to write
     if (pre == "zero") { memset(cd->reserved, 0, sizeof cd->reserved); cd->initialized = 0; memset(cd->internal, 0, sizeof cd->internal); }
     else if (pre == "garbage") { garbage_fill(cd->reserved, sizeof cd->reserved, (uint64_t)op.i("gseed") + 1); cd->initialized = (char)(op.i("gseed") | 1); garbage_fill(cd->internal, sizeof cd->internal, (uint64_t)op.i("gseed") + 2); }
     else if (pre == "garbage-all") {
@@ -682,7 +700,9 @@ static void exec_hash(Run &r, int t, int i, const J &op) {
   bool exp_fail = must_fail || !exp.ok;
 
   if (r.o_ref || r.o_c05 || r.o_c15) {
-    if (exp_fail != c.failed) {
+    if (aliased && c.failed && !exp_fail) {
+      stat("aliased_setting_call_failed_closed");     // legal: see above
+    } else if (exp_fail != c.failed) {
       if (fv.effective > 0 && !c.failed)
         violation(nullptr, "hash-despite-failed-allocation", t, i, vfmt("%s returned \"%s\" although %sfailed", c.kind.c_str(), c.res.c_str(), fv.desc.c_str()));
       else
@@ -704,7 +724,7 @@ static void exec_hash(Run &r, int t, int i, const J &op) {
       if (memcmp(ref.data(), small, small_alloc)) violation(nullptr, "failure-token", t, i, vfmt("crypt_rn(size=%ld) wrote to the buffer", size));
       c.have_out = false;
     }
-    check_fail_closed(r, t, i, c, size, *earlier);
+    check_fail_closed(r, t, i, c, size, *earlier, aliased);
     if (r.o_c15 && fv.effective > 0) stat("probe_fault_reported_cleanly");
   }
   if (small) {  // guard bytes behind a short buffer
@@ -765,8 +785,10 @@ static void exec_hash(Run &r, int t, int i, const J &op) {
           if (!all_zero(nd->setting, CD - offsetof(struct crypt_data, setting)))
             violation(nullptr, "ra-not-zeroed", t, i, "crypt_ra grew the block but the new block is not zero-initialised outside its output field");
           else {
+            // ... and inside the output field everything behind the string the call left there
             size_t l = strnlen(nd->output, sizeof nd->output);
-            if (!all_zero(nd->output + l, sizeof nd->output - l)) stat("incidental_output_tail_not_zero_after_growth");
+            if (!all_zero(nd->output + l, sizeof nd->output - l))
+              violation(nullptr, "ra-not-zeroed", t, i, vfmt("crypt_ra grew the block but its output field holds non-zero bytes behind the %zu-character result (uninitialised or stale memory)", l));
           }
         }
         if (slot_before && slot->data != slot_before && MemLayer::get().find(slot_before) && !r.plan.at("env").i("realloc_move")) {}
@@ -786,9 +808,9 @@ static void exec_hash(Run &r, int t, int i, const J &op) {
   // ---------------- leaks (C08-3, C14, C15-c)
   leak_check(r, t, i, "after the call returned");
 
-  // model/state updates
-  if (state) *state = c.failed ? "failure" : "success";
-  if (earlier && !c.failed) earlier->insert(c.res);
+  // model/state updates (a crypt_rn call on a separate short buffer did not touch the object)
+  if (state && full_object) *state = c.failed ? "failure" : "success";
+  if (earlier && !c.failed && full_object) earlier->insert(c.res);
   if (obj && full_object && obj->key_state != 3) obj->key_state = obj->key_state ? 2 : 0;   // hashing wipes the scratch area that held setkey_r's schedule
   if (obj && full_object && obj->key_state == 3 && scratch_zero(obj->cd)) obj->key_state = 2;
   if (small) { thr::region_del(small); free(small); }
